@@ -56,7 +56,7 @@ func c05Probe(ins string) func(w *mintops.W) {
 	}
 }
 
-func c05Specs(quick bool) []*bfs.Spec {
+func c05OwnSpecs(quick bool) []*bfs.Spec {
 	d := 5
 	if !quick {
 		d = 7
@@ -77,7 +77,7 @@ func c05Specs(quick bool) []*bfs.Spec {
 var c05All = specMap(c05Specs(true), c05Specs(false))
 
 func init() {
-	register(&Prop{ID: "C05", Level: "model_checking", QuickBudget: 100 * time.Second, ThoroughBudget: 25 * time.Minute,
+	register(&Prop{ID: "C05", Level: "model_checking", QuickBudget: 300 * time.Second, ThoroughBudget: 25 * time.Minute,
 		Run: func(c *rt.Ctx) {
 			c.Cov["rule"] = "E3 over Lightning answer scripts: from a state with two melt quotes, every sequence up to the depth bound of {melt with pay answer in {Succeeded, Pending, Failed, error} x first status answer in {NotFound, error, Failed, Pending, Succeeded}; then polls and proof-state checks each with status answer in {NotFound, error, Failed, Pending, Succeeded}; a second melt on the same quote; a melt of the same inputs on the other quote; a swap of the same inputs; restart}, one- and two-input melts, fee 0 and 100. Reference decision table: known in {none, success, failure} is updated only by answers the mint has seen; in every state the store's quote state / input states and an operational swap of the inputs are compared with it"
 			runSpecs(c, c05Specs(c.Quick()))
@@ -96,4 +96,9 @@ func init() {
 			return bfs.ReplayFile("C05", c05All, p)
 		},
 	})
+}
+
+// c05Specs: the property's own searches plus the shallow search over the union of all mint-level menus (seqcommon.go).
+func c05Specs(quick bool) []*bfs.Spec {
+	return append(c05OwnSpecs(quick), unionSpecs("C05", c05Probe("0"), quick)...)
 }
